@@ -151,10 +151,11 @@ PROPS["C17"] = {
 
 PROPS["C19"] = {
     "level": "proof",
-    "technique": "Verus contracts on the extracted NodeInfo::can_accept_writes (equals the property's eligibility predicate), ShardAssignment::assign_shard / unassign_shard (one node per shard, an assignment whose node is still eligible is reused) and DistributedWriteRouter::route_write (returns only the registry's current record of an eligible node, or an error; termination by a decreases measure — unbounded recursion or an unbounded loop fails the termination obligation)",
+    "technique": "lock discipline as typestate (tokio RwLock guards keep their lexical scope in the extracted text: acquiring a lock the task already holds for writing, or calling a helper that takes it, is a failed precondition -- self-deadlock); Verus contracts on the extracted NodeInfo::can_accept_writes (equals the property's eligibility predicate), ShardAssignment::assign_shard / unassign_shard (one node per shard, an assignment whose node is still eligible is reused) and DistributedWriteRouter::route_write (returns only the registry's current record of an eligible node, or an error; termination by a decreases measure — unbounded recursion or an unbounded loop fails the termination obligation)",
     "verus": ["c19_routing.rs.in"],
     "explanation": "",
     "assumptions": [
+        "lock model: only the assignment table's RwLock, as seen by one task (what other tasks hold is not modelled); a guard lives to the end of its block or to a return inside it; `?` inside a guard scope is not supported (undecided)",
         "the three assignment strategies (hash ring, fewest shards, least loaded) are external here: they return some node id or an error and do not touch the assignment table; ConsistentHashRing / rebalance are not under contract",
         "RwLock / Arc are transparent under the sequential reading; membership changes between two requests are covered because the contracts quantify over every registry state",
         "let-else is rewritten to an equivalent match (declared rewrite)",
